@@ -490,13 +490,14 @@ def save_replay(prop, q, v):
 def main():
     ap = argparse.ArgumentParser()
     ap.add_argument('prop'); ap.add_argument('--tier', default=os.environ.get('VERIF_TIER', 'quick'), choices=['quick', 'thorough'])
-    ap.add_argument('--only'); ap.add_argument('--jobs', type=int, default=int(os.environ.get('VF_JOBS', '14')))
+    ap.add_argument('--only'); ap.add_argument('--jobs', type=int, default=int(os.environ.get('VF_JOBS', '12')))
     ap.add_argument('--replay'); ap.add_argument('--no-validate', action='store_true'); ap.add_argument('--no-evidence', action='store_true')
     a = ap.parse_args()
     sys.path.insert(0, ENGINE)
     prop = a.prop
     spec = load_spec(prop)
     seed = int(os.environ.get('VERIF_SEED', '0') or 0)
+    if 'VF_JOBS' not in os.environ and spec.PROPERTY.get('jobs'): a.jobs = int(spec.PROPERTY['jobs'])   # memory-hungry queries: fewer in parallel
     global WORK_SUFFIX
     WORK_SUFFIX = ('.thorough' if a.tier == 'thorough' else '') + ('.only' if a.only else '')
     if a.replay:
